@@ -495,15 +495,27 @@ def witness_cases(recorded):
         for cls, ex in sorted((r.get("examples") or {}).items()):
             cases.append({"kind": kind, "label": "recorded:%s:%s" % (cls.rsplit(".", 1)[-1], ex["label"]), "flags": [],
                           "bad": ex["bad"], "good": base64.b64encode(good).decode()})
+    for n_, c_ in enumerate(cases):
+        if n_ % 3 == 2:
+            c_["badname"] = BADNAMES[(n_ // 3) % len(BADNAMES)]
     return cases
+
+
+# the malformed file's base name: usually plain, sometimes with characters that a message template must not interpret
+BADNAMES = ["bad", "bad", "bad", "my%20config", "100%", "report%d", "a{0}b", "bad file", "b{ad}", "%s", "caf\u00e9"]
+
+
+def _badname(case):
+    return case.get("badname", "bad") + "." + case["kind"]
 
 
 def impl(case):
     from harness import clirun
     ext = case["kind"]
-    files = {"bad." + ext: {"b64": case["bad"]}, "good." + ext: {"b64": case["good"]}}
+    bad = _badname(case)
+    files = {bad: {"b64": case["bad"]}, "good." + ext: {"b64": case["good"]}}
     fl = case.get("flags", [])
-    runs = [{"argv": fl + ["bad." + ext, "good." + ext]}, {"argv": fl + ["good." + ext, "bad." + ext]}]
+    runs = [{"argv": fl + [bad, "good." + ext]}, {"argv": fl + ["good." + ext, bad]}]
     res = clirun.run_case(files, runs)
     for r in res:
         r["out"] = r["out"][:400]
@@ -533,7 +545,7 @@ def monitor(case, obs):
             hits.append({"prop": "C20", "key": f"exit-zero:{k}", "what": f"malformed {k} file as {pos} file ({case['label']}): exit status {r['rc']}"})
         if r["out"].strip() != "":
             hits.append({"prop": "C20", "key": f"printed-diff:{k}", "what": f"malformed {k} file as {pos} file ({case['label']}): wrote to stdout: {r['out'][:80]!r}"})
-        if not _names_file(r["err"], "bad." + k):
+        if not _names_file(r["err"], _badname(case)):
             hits.append({"prop": "C20", "key": f"no-filename:{k}", "what": f"malformed {k} file as {pos} file ({case['label']}): stderr does not name the file: {r['err'][:120]!r}"})
     return hits
 
@@ -549,7 +561,7 @@ def expect(case, obs):
     # abstract observation: for each position (rc != 0, stdout empty, stderr names file, no exception)
     res = []
     for r in obs["runs"]:
-        res.append([r["exc"] is None and r["rc"] not in (0, None), r["out"].strip() == "", _names_file(r["err"], "bad." + case["kind"])])
+        res.append([r["exc"] is None and r["rc"] not in (0, None), r["out"].strip() == "", _names_file(r["err"], _badname(case))])
     return {"runs": res}
 
 
